@@ -152,10 +152,118 @@ fn expand_args(line: &str, args: &[String]) -> String {
         return line.to_string();
     }
 
-    let linfo = parsers::parser_line::parse_line(line);
-    let mut tokens = linfo.tokens;
-    expand_args_in_tokens(&mut tokens, args);
-    parsers::parser_line::tokens_to_line(&tokens)
+    // The values are pasted into the line, which is parsed afterwards like
+    // any other line. Everything else on the line is copied as written
+    // (the line is NOT tokenized and re-rendered: that loses escapes).
+    let chars: Vec<char> = line.chars().collect();
+    let mut out = String::new();
+    let mut in_sq = false;
+    let mut in_dq = false;
+    // where the current word starts in `out` (to recognize `NAME=$1`)
+    let mut word_start = 0;
+    let mut i = 0;
+    while i < chars.len() {
+        let c = chars[i];
+        if c == '\\' && !in_sq {
+            // an escaped character (also `\$1`) is copied as it is
+            out.push(c);
+            if i + 1 < chars.len() {
+                out.push(chars[i + 1]);
+            }
+            i += 2;
+            continue;
+        }
+        if c == '\'' && !in_dq {
+            in_sq = !in_sq;
+        } else if c == '"' && !in_sq {
+            in_dq = !in_dq;
+        } else if c == '$' && !in_sq {
+            if let Some((key, len)) = positional_parameter_at(&chars[i..]) {
+                let value = if key == "@" {
+                    None
+                } else {
+                    match key.parse::<usize>() {
+                        Ok(idx) if idx < args.len() => Some(args[idx].clone()),
+                        _ => Some(String::new()),
+                    }
+                };
+                let head = out[word_start..].to_string();
+                let ends_word = i + len >= chars.len() || chars[i + len] == ' ';
+                let is_assignment = libs::re::re_contains(&head, r"^[a-zA-Z_][a-zA-Z0-9_]*=");
+                let whole_value = libs::re::re_contains(&head, r"^[a-zA-Z_][a-zA-Z0-9_]*=$") && ends_word;
+                if in_dq {
+                    // inside double quotes the value is one piece of text
+                    match value {
+                        Some(v) => out.push_str(&v),
+                        None => out.push_str(&args[1..].join(" ")),
+                    }
+                } else if whole_value {
+                    // `NAME=$1`: the value is quoted as a whole, which is
+                    // what the assignment parser can read back
+                    let v = value.unwrap_or_else(|| args[1..].join(" "));
+                    if !v.contains('\'') {
+                        out.push_str(&format!("'{}'", v));
+                    } else if !v.contains(|c| c == '"' || c == '$' || c == '`' || c == '\\') {
+                        out.push_str(&format!("\"{}\"", v));
+                    } else {
+                        out.push_str(&v);
+                    }
+                } else if is_assignment {
+                    // (backslash escapes would turn an assignment into a
+                    // literal word)
+                    match value {
+                        Some(v) => out.push_str(&v),
+                        None => out.push_str(&args[1..].join(" ")),
+                    }
+                } else {
+                    // an unquoted word: the syntax characters of the value
+                    // are escaped, blanks still separate words
+                    match value {
+                        Some(v) => out.push_str(&escape_arg_value(&v)),
+                        None => {
+                            let values: Vec<String> = args[1..].iter().map(|x| escape_arg_value(x)).collect();
+                            out.push_str(&values.join(" "));
+                        }
+                    }
+                }
+                i += len;
+                continue;
+            }
+        } else if c == ' ' && !in_sq && !in_dq {
+            out.push(c);
+            word_start = out.len();
+            i += 1;
+            continue;
+        }
+        out.push(c);
+        i += 1;
+    }
+    out
+}
+
+/// `$N`, `${N}`, `$@` or `${@}` at the start of `text`: (N or "@", length)
+fn positional_parameter_at(text: &[char]) -> Option<(String, usize)> {
+    let braced = text.len() > 1 && text[1] == '{';
+    let start = if braced { 2 } else { 1 };
+    let mut j = start;
+    if j < text.len() && text[j] == '@' {
+        j += 1;
+    } else {
+        while j < text.len() && text[j].is_ascii_digit() {
+            j += 1;
+        }
+    }
+    if j == start {
+        return None;
+    }
+    let key: String = text[start..j].iter().collect();
+    if braced {
+        if j < text.len() && text[j] == '}' {
+            return Some((key, j + 1));
+        }
+        return None;
+    }
+    Some((key, j))
 }
 
 #[cfg(feature = "cicada_verif")]
@@ -166,9 +274,9 @@ pub fn verif_expand_args(line: &str, args: &[String]) -> String {
 fn expand_line_to_toknes(line: &str,
                          args: &[String],
                          sh: &mut shell::Shell) -> types::Tokens {
-    let linfo = parsers::parser_line::parse_line(line);
+    let line = expand_args(line, args);
+    let linfo = parsers::parser_line::parse_line(&line);
     let mut tokens = linfo.tokens;
-    expand_args_in_tokens(&mut tokens, args);
     shell::do_expansion(sh, &mut tokens);
     tokens
 }
@@ -189,141 +297,6 @@ fn escape_arg_value(value: &str) -> String {
         result.push(c);
     }
     result
-}
-
-/// Whether the text ends inside a quoted part (`FOO="a $1"`).
-fn ends_inside_quotes(text: &str, inside: &mut Option<char>) {
-    let mut escaped = false;
-    for c in text.chars() {
-        if escaped {
-            escaped = false;
-            continue;
-        }
-        match *inside {
-            Some(q) => {
-                if c == '\\' && q == '"' {
-                    escaped = true;
-                } else if c == q {
-                    *inside = None;
-                }
-            }
-            None => {
-                if c == '\\' {
-                    escaped = true;
-                } else if c == '"' || c == '\'' {
-                    *inside = Some(c);
-                }
-            }
-        }
-    }
-}
-
-/// `NAME=$1`: the value is quoted as a whole, which is what the assignment
-/// parser can read back (it does not know backslash escapes).
-fn expand_args_for_assignment(token: &str, args: &[String]) -> Option<String> {
-    let re = Regex::new(r"^([a-zA-Z_][a-zA-Z0-9_]*)=\$\{?([0-9]+|@)\}?$").unwrap();
-    let cap = re.captures(token)?;
-    let value = if &cap[2] == "@" {
-        args[1..].join(" ")
-    } else {
-        match cap[2].parse::<usize>() {
-            Ok(idx) if idx < args.len() => args[idx].clone(),
-            _ => String::new(),
-        }
-    };
-    if !value.contains('\'') {
-        Some(format!("{}='{}'", &cap[1], value))
-    } else if !value.contains(|c| c == '"' || c == '$' || c == '`' || c == '\\') {
-        Some(format!("{}=\"{}\"", &cap[1], value))
-    } else {
-        None
-    }
-}
-
-fn expand_args_for_single_token(token: &str, args: &[String], unquoted: bool) -> String {
-    let re = Regex::new(r"^(.*?)\$\{?([0-9]+|@)\}?(.*)$").unwrap();
-    if !re.is_match(token) {
-        return token.to_string();
-    }
-
-    let is_assignment = libs::re::re_contains(token, r"^[a-zA-Z_][a-zA-Z0-9_]*=");
-    if unquoted && is_assignment {
-        if let Some(x) = expand_args_for_assignment(token, args) {
-            return x;
-        }
-    }
-    // (backslash escapes would turn an assignment into a literal word)
-    let unquoted = unquoted && !is_assignment;
-
-    // the values are pasted into the line, which is parsed again later:
-    // outside of quotes their special characters have to be escaped.
-    let mut inside: Option<char> = None;
-    let value_of = |arg: &String, inside: &Option<char>| -> String {
-        if unquoted && inside.is_none() {
-            escape_arg_value(arg)
-        } else {
-            arg.to_string()
-        }
-    };
-
-    let mut result = String::new();
-    let mut _token = token.to_string();
-    let mut _head = String::new();
-    let mut _output = String::new();
-    let mut _tail = String::new();
-    loop {
-        if !re.is_match(&_token) {
-            if !_token.is_empty() {
-                result.push_str(&_token);
-            }
-            break;
-        }
-        for cap in re.captures_iter(&_token) {
-            _head = cap[1].to_string();
-            _tail = cap[3].to_string();
-            let _key = cap[2].to_string();
-            ends_inside_quotes(&_head, &mut inside);
-            if _key == "@" {
-                let values: Vec<String> = args[1..].iter().map(|x| value_of(x, &inside)).collect();
-                result.push_str(format!("{}{}", _head, values.join(" ")).as_str());
-            } else if let Ok(arg_idx) = _key.parse::<usize>() {
-                if arg_idx < args.len() {
-                    result.push_str(format!("{}{}", _head, value_of(&args[arg_idx], &inside)).as_str());
-                } else {
-                    result.push_str(&_head);
-                }
-            } else {
-                result.push_str(&_head);
-            }
-        }
-
-        if _tail.is_empty() {
-            break;
-        }
-        _token = _tail.clone();
-    }
-    result
-}
-
-fn expand_args_in_tokens(tokens: &mut types::Tokens, args: &[String]) {
-    let mut idx: usize = 0;
-    let mut buff = Vec::new();
-
-    for (sep, token) in tokens.iter() {
-        // (a word tagged `\\` starts with an escaped `$`: `\$1` is literal text)
-        if sep == "`" || sep == "'" || sep == "\\" || !is_args_in_token(token) {
-            idx += 1;
-            continue;
-        }
-
-        let _token = expand_args_for_single_token(token, args, sep.is_empty());
-        buff.push((idx, _token));
-        idx += 1;
-    }
-
-    for (i, text) in buff.iter().rev() {
-        tokens[*i].1 = text.to_string();
-    }
 }
 
 fn run_exp_test_br(sh: &mut shell::Shell,
